@@ -79,6 +79,27 @@ def run_batch(cgs, tier, seed, keep_dir=None, variants_fn=None, owner=None):
     lr1 = eng_core.run_eval.lr1
     reduced = eng_core.run_eval.reduced
     usable = [cg for cg in cgs if all(lr1.get("%s@%s" % (cg["id"], s)) for s in cg["starts"])]
+    # long inputs (sentences by random derivation and single-token mutations of them): one behaviour each
+    longs = {}
+    lcases = []
+    n_long = 5 if tier == "quick" else 14
+    for cg in usable:
+        if cg.get("sugar") or cg.get("prec") or cg.get("cfg"):
+            continue
+        for s in cg["starts"]:
+            ins = core.long_inputs(cg, s, rng, k=n_long)
+            longs[(cg["id"], s)] = ins
+            for j, w in enumerate(ins):
+                c = core.eval_case(cg, s, len(w) + 1, rng.random() < 0.15)
+                c["id"] += "#L%d" % j
+                c["fixed"] = w
+                lcases.append(c)
+    if lcases:
+        lrecs, st2, ge2 = eng_core.run_eval(lcases, chunk=150)
+        states += st2
+        generated += ge2
+        for k, v in lrecs.items():
+            recs.setdefault(k.split("#")[0], []).extend(v)
     idx_of = {cg["id"]: i for i, cg in enumerate(usable)}
 
     def variants(cg):
@@ -112,6 +133,7 @@ def run_batch(cgs, tier, seed, keep_dir=None, variants_fn=None, owner=None):
         byid = {cg["id"]: cg for cg in usable}
         # the runtime model over the exported tables of every accepted module
         run_cases = []
+        long_run_cases = []
         for m, _, starts in modules:
             gid, algo, backend = m.split("_")
             cg = byid[gid]
@@ -125,9 +147,23 @@ def run_batch(cgs, tier, seed, keep_dir=None, variants_fn=None, owner=None):
                                 "gid": gid, "start": a["user"], "cg": cg, "input": [], "detail": ""})
                 else:
                     run_cases.append(rc)
+                    for j, w in enumerate(longs.get((gid, a["user"]), [])):
+                        lc = dict(rc)
+                        lc["id"] = "%s@%s#L%d" % (m, a["user"], j)
+                        lc["fixed"] = w
+                        lc["n"] = len(w) + 1
+                        lc["inject"] = (j % 7 == 3)
+                        long_run_cases.append(lc)
         rrecs, rstates, rgenerated, rviol = eng_core.run_machine(run_cases)
+        if long_run_cases:
+            r2, s2, g2, v2 = eng_core.run_machine(long_run_cases, chunk=200)
+            rstates += s2
+            rgenerated += g2
+            rviol += v2
+            for k, v in r2.items():
+                rrecs.setdefault(k.split("#")[0], []).extend(v)
         for v in rviol:
-            m, start = v["id"].split("@")
+            m, start = v["id"].split("#")[0].split("@")
             gid, algo, backend = m.split("_")
             prop = "C08" if v["inv"] in ("StepBound", "AcceptsTerminates") else "C16" if byid[gid].get("recovery") else "C01"
             dis.append({"prop": prop, "kind": "model_invariant_" + v["inv"], "backend": backend, "algo": algo, "gid": gid,
